@@ -55,6 +55,30 @@ Fixpoint decompile (ops : list op) (stack : list seg) : option (list seg) :=
   | OCapture _ :: _ => None
   end.
 
+(* ---------- the hypothesis of the round-trip theorem (Proofs/TemplateParseProofs.v: parse_render) ----------
+   evaluated by the check on every generated template, so that the theorem provably covers what is generated *)
+Open Scope N_scope.
+Definition tok_flat (s : seg) : bytes := match s with SWild => [c_star] | SDeep => s_deep | SLit l => l | SVar _ _ => [] end.
+Definition good_lit (l : bytes) : bool :=
+  negb (match l with [] => true | _ => false end) && is_literal l && negb (bytes_eqb l [c_star]) && negb (bytes_eqb l s_deep).
+Definition good_flat (s : seg) : bool := match s with SWild | SDeep => true | SLit l => good_lit l | SVar _ _ => false end.
+Definition good_seg (s : seg) : bool :=
+  match s with
+  | SVar p inner => negb (match p with [] => true | _ => false end) && forallb is_ident p
+                    && negb (match inner with [] => true | _ => false end) && forallb good_flat inner
+  | _ => good_flat s
+  end.
+Definition no_colon (t : bytes) : bool := forallb (fun c => negb (c =? c_colon)) t.
+Definition verb_ok (segs : list seg) (verb : bytes) : bool :=
+  match last segs SWild, verb with
+  | SVar _ _, _ => true                                       (* after a variable everything behind the colon is the verb *)
+  | s, [] => no_colon (tok_flat s)                            (* otherwise the text would read as literal + verb *)
+  | _, _ => no_colon verb
+  end.
+Definition good_template (t : template) : bool :=
+  negb (match t_segs t with [] => true | _ => false end) && forallb good_seg (t_segs t) && is_literal (t_verb t) && verb_ok (t_segs t) (t_verb t).
+Open Scope Z_scope.
+
 (* ---------- C20, routing parser ----------
    input ( kind text ast ) : kind 0 = text is the rendering of the well-formed template ast ; 1 = a mutant / noise
    impl  ( ) rejected (Parse or NewPattern failed: no route) | ( verb fields ops ) *)
@@ -101,6 +125,8 @@ Definition is_root (segs : list seg) : bool := match segs with [SLit []] => true
 
 (* 1: accepted, but its text is not the rendering of the accepted structure, or it contains illegal characters / field paths
    2: the rendering of a well-formed template was rejected or parsed into another structure
+   3: a generated template is outside the hypothesis of the round-trip theorem (good_template): the generator and the theorem
+      no longer talk about the same language
    4: panic *)
 Definition prop_c20_gw (input impl : val) : option Z :=
   let text := as_S (nthv 1 input) in
@@ -116,6 +142,7 @@ Definition prop_c20_gw (input impl : val) : option Z :=
                            && bytes_eqb (render t) (norm_text text (as_S verb)) in
           if negb ok_struct then Some 1
           else if Z.eqb (as_Z (nthv 0 input)) 0 && negb (template_eqb t (as_template (nthv 2 input))) then Some 2
+          else if Z.eqb (as_Z (nthv 0 input)) 0 && negb (good_template (as_template (nthv 2 input)) || is_root (t_segs (as_template (nthv 2 input)))) then Some 3
           else None
       end
   | _ => if Z.eqb (as_Z (nthv 0 input)) 0 then Some 2 else None
